@@ -62,12 +62,15 @@ where
             )
             .await?; // cancel safe
 
+            // Only the first transfer of a delivery names it: the session assigns a new
+            // delivery-id to every transfer that carries a delivery-tag
+            transfer.delivery_tag = None;
+            transfer.message_format = None;
+            transfer.settled = None;
+
             // Send the transfers in the middle
             while payload.len() > self.max_message_size as usize {
                 let partial = payload.split_to(self.max_message_size as usize);
-                transfer.delivery_tag = None;
-                transfer.message_format = None;
-                transfer.settled = None;
                 send_transfer(
                     writer,
                     input_handle.clone(),
